@@ -189,3 +189,18 @@ def tlapm(path, timeout=600):
     proved = len(re.findall(r"@!!status:proved", out))
     failed = len(re.findall(r"@!!status:failed", out))
     return r.returncode, proved, failed, out
+
+
+def apalache(module_path, init, inv, length, nxt=None, timeout=600):
+    """Run apalache-mc check; returns (ok, output). ok = 'EXITCODE: OK' (no error up to the given length)."""
+    out_dir = workdir(os.path.join("apalache", os.path.basename(module_path).replace(".", "_") + "_" + init + "_" + inv + ("_" + nxt if nxt else "")))
+    cmd = ["apalache-mc", "check", f"--init={init}", f"--inv={inv}", f"--length={length}", f"--out-dir={out_dir}"]
+    if nxt:
+        cmd.append(f"--next={nxt}")
+    cmd.append(os.path.basename(module_path))
+    try:
+        r = subprocess.run(cmd, capture_output=True, text=True, cwd=os.path.dirname(module_path), timeout=timeout)
+    except subprocess.TimeoutExpired as ex:
+        raise MachineryError(f"apalache timeout on {module_path}") from ex
+    out = r.stdout + r.stderr
+    return "EXITCODE: OK" in out, out
